@@ -47,6 +47,84 @@ CHECKS = {
         technique="TLA+ spec (Decoder.tla, CborGen.tla) model-checked with TLC; TLC-generated items replayed on the real decoder and "
                   "validated by TLC (TraceDecoder.tla)",
     ),
+    "C01": dict(
+        category="model_checking",
+        text=("Recorded executions of the real CdnsExporter over random API histories (all optional-member subsets, boundary "
+              "integers, byte strings, repeated/distinct table values, RR lists, 1-3 parameter sets with random hints, tick rates "
+              "and block sizes, explicit block writes, rotations, three compression modes) are validated by TLC against the "
+              "Exporter state machine: every call's return value/counters, and for every closed output the denotation of its real "
+              "bytes under an independent TLA+ reading of RFC 8949/8618 (Cbor.tla, CdnsFormat.tla) as well as the library reader's "
+              "dump must equal the hint-filtered records the model holds, in order, with AEC counts and block statistics."),
+        design_ref="DESIGN.md section 3 / C01",
+        note=TRUST + "python3 zlib/lzma. Histories are sampled (seeded); the state machine itself is model-checked under C12/C13.",
+        technique="TLC trace validation of recorded exporter executions against Exporter.tla + independent TLA+ RFC 8618 interpreter "
+                  "evaluated by TLC on the real output bytes",
+    ),
+    "C02": dict(
+        category="model_checking",
+        text=("Every closed output of recorded executions (random histories; histories with present-but-empty BlockStatistics, "
+              "CollectionParameters, record sections and records; every rotation/destruction path; three compression modes) is "
+              "parsed by TLC with a strict RFC 8949 parser and validated against the RFC 8618 schema with index closure "
+              "(CdnsFormat!FileErrs); outputs without a block must be empty. The exporter state machine is model-checked "
+              "(header written with the first block, blocks refer to sets in the header)."),
+        design_ref="DESIGN.md section 3 / C02",
+        note=TRUST + "blocks built directly through the raw add_* API are covered by the C11/C19 block driver, not here.",
+        technique="TLC evaluates the TLA+ CBOR parser and RFC 8618 schema (Cbor.tla, CdnsFormat.tla) on the real bytes of every output "
+                  "of recorded executions; Exporter.tla model-checked",
+    ),
+    "C04": dict(
+        category="model_checking",
+        text=("For a family of hint masks (all/none, each of the 18+17 bits cleared and alone, all RR/other-data masks, all subsets "
+              "of the four section bits, random masks) and records with every optional member set, TLC checks on the real output "
+              "bytes that no member excluded by a cleared bit is present, that every table entry is reachable from a stored item, "
+              "that AEC/MM arrays exist only when enabled, and that the preamble states the hints applied."),
+        design_ref="DESIGN.md section 3 / C04",
+        note=TRUST + "2^18 x 2^17 masks are covered by families and random samples, not enumerated.",
+        technique="TLC trace validation: hint semantics in Records.tla applied to submitted records, compared with the TLA+ RFC 8618 "
+                  "denotation of the real bytes; reachability computed by TLC on the parsed tables",
+    ),
+    "C09": dict(
+        category="model_checking",
+        text=("Generated FilePreamble values (versions, private version present/absent, 1..8 parameter sets, optional member subsets, "
+              "absent/empty/partial/full collection parameters, lists incl. unassigned codes, full-width integers) are written by the "
+              "real exporter and read back; TLC compares both the independent denotation of the bytes and the library reader's result "
+              "with the supplied value, member for member."),
+        design_ref="DESIGN.md section 3 / C09",
+        note=TRUST + "preambles are sampled (seeded).",
+        technique="TLC trace validation: supplied preamble vs TLA+ denotation of the real bytes and vs reader dump",
+    ),
+    "C10": dict(
+        category="model_checking",
+        text=("TLC keeps, in the Exporter model, the sum of the byte counts returned by buffer/write_block/rotate calls per output and "
+              "compares it with the uncompressed size of the real closed output (+1 on destruction) for every history (three "
+              "compression modes, file-name and descriptor outputs, rotations, empty structures); per-call counts of the encoder are "
+              "validated against Len(EncBytes) by TraceEncoder (see C06)."),
+        design_ref="DESIGN.md section 3 / C10",
+        note=TRUST + "python3 zlib/lzma.",
+        technique="TLC trace validation (TraceExporter.tla ledger, TraceEncoder.tla per-call return values)",
+    ),
+    "C12": dict(
+        category="model_checking",
+        text=("TLC model-checks the exporter state machine for all histories up to 4 (quick) / 5 (thorough) calls over an alphabet of "
+              "storable/unstorable records, two AEC keys, malformed messages, write_block, rotation, parameter switches, for all "
+              "block-size pairs in {0..3}: record conservation in order, block sizes, flush-exactly. TLC then emits every complete "
+              "history of the model and the driver replays them on the real exporter; return values (zero/non-zero), all counters and "
+              "the parsed outputs are validated by TLC. Random longer histories add hint- and size-variation."),
+        design_ref="DESIGN.md section 3 / C12",
+        note=TRUST + "exhaustive only up to the stated history length and alphabet.",
+        technique="TLA+ spec (Exporter.tla) model-checked with TLC; TLC-generated behaviours replayed on the real exporter and "
+                  "validated with TraceExporter.tla",
+    ),
+    "C13": dict(
+        category="model_checking",
+        text=("Same model and generator as C12 with rotation (export true/false), consecutive empty rotations and parameter sets added "
+              "mid-stream: invariants self-contained outputs, closed outputs frozen, record stream conserved across outputs. Generated "
+              "and random rotation-heavy histories run on the real exporter with file-name and descriptor outputs in three compression "
+              "modes; every closed output is parsed by TLC and must be empty or a complete valid file holding exactly the model's blocks."),
+        design_ref="DESIGN.md section 3 / C13",
+        note=TRUST + "rotation with an argument of another kind than the constructor's is outside the statement and not generated.",
+        technique="TLA+ spec (Exporter.tla) model-checked with TLC; TLC-generated behaviours replayed and validated with TraceExporter.tla",
+    ),
 }
 
 PENDING_REASON = "check not built yet in this revision (specification in progress); see DESIGN.md"
